@@ -14,6 +14,7 @@ pub fn merge(case: &Value) -> Value {
         files: &files,
         calls: Vec::new(),
         real_compile: true,
+        resolve_only: false,
     };
     let mods = match oal_compiler::module::load(&mut loader, &loc(main)) {
         Ok(m) => m,
